@@ -685,7 +685,15 @@ func (w *world) history(cipher string, fec [2]int) {
 func (w *world) drain() {
 	start := w.now
 	idle := uint32(0)
-	for round := 0; round < 100000 && w.now-start < 1800000 && !w.aborted; round++ {
+	// progress-based bound: the per-segment timeout grows by up to 60 s per retransmission, so the time
+	// to drain depends on the history; a wedge is "no progress for 40 virtual minutes" (or 24 h in all)
+	lastProgress := w.now
+	progressKey := func() string {
+		da, db := w.state(w.a), w.state(w.b)
+		return fmt.Sprint(da.SndUna, db.SndUna, len(da.SndQueue), len(db.SndQueue), len(w.a.got), len(w.b.got))
+	}
+	key := progressKey()
+	for round := 0; round < 400000 && w.now-lastProgress < 2400000 && w.now-start < 86400000 && !w.aborted; round++ {
 		da, db := w.state(w.a), w.state(w.b)
 		if len(da.SndQueue)+len(da.SndBuf)+len(db.SndQueue)+len(db.SndBuf) == 0 && len(w.netAB)+len(w.netBA) == 0 {
 			w.readAll(w.a)
@@ -697,18 +705,22 @@ func (w *world) drain() {
 				}
 			}
 			w.o.CountN("drain-rounds", round)
+			w.o.CountN("drain-virtual-s", int((w.now-start)/1000))
 			return
 		}
 		active := len(w.netAB)+len(w.netBA) > 0
+		// fair network, and the reader keeps reading: it reads after every datagram
 		for len(w.netAB) > 0 && !w.aborted {
 			p := w.netAB[0]
 			w.netAB = w.netAB[1:]
 			w.input(w.b, p)
+			w.readAll(w.b)
 		}
 		for len(w.netBA) > 0 && !w.aborted {
 			p := w.netBA[0]
 			w.netBA = w.netBA[1:]
 			w.input(w.a, p)
+			w.readAll(w.a)
 		}
 		w.readAll(w.a)
 		w.readAll(w.b)
@@ -719,15 +731,26 @@ func (w *world) drain() {
 		} else {
 			idle++
 			if idle > 3 {
-				step = min(step<<min(idle-3, 6), 2000)
+				step = min(step<<min(idle-3, 8), 5000)
 			}
 		}
 		w.now += step
+		if k := progressKey(); k != key {
+			key, lastProgress = k, w.now
+		}
 	}
 	if !w.aborted {
 		da, db := w.state(w.a), w.state(w.b)
-		w.viol("sess-no-drain", fmt.Sprintf("no drain within 30 virtual minutes on a fair network: a backlog %d+%d, b backlog %d+%d", len(da.SndQueue), len(da.SndBuf), len(db.SndQueue), len(db.SndBuf)))
+		w.viol("sess-no-drain", fmt.Sprintf("no progress for 40 virtual minutes on a fair network with the reader reading (after %d s): a backlog %d+%d, b backlog %d+%d; a: %s; b: %s; a.snd_buf head: %s", (w.now-start)/1000, len(da.SndQueue), len(da.SndBuf), len(db.SndQueue), len(db.SndBuf), scalars(&da), scalars(&db), headSeg(&da)))
 	}
+}
+
+func headSeg(d *kcp.VerifKCPDump) string {
+	if len(d.SndBuf) == 0 {
+		return "-"
+	}
+	h := d.SndBuf[0]
+	return fmt.Sprintf("sn=%d xmit=%d rto=%d resendts=%d fastack=%d acked=%d len=%d", h.Sn, h.Xmit, h.Rto, h.Resendts, h.Fastack, h.Acked, len(h.Data))
 }
 
 func (w *world) readAll(x *side) {
